@@ -250,7 +250,7 @@ func bodyDial(r *sim.Run) {
 		// allowed / denied networks fetches well-known documents through a
 		// second dialer of its own instead of the process-wide transport
 		tag := "fed"
-		if w.client != nil && d != w.client.VerifFederationDialer() && (w.cache == nil || d != w.cache.VerifDialer()) {
+		if fclient.VerifInternals && w.client != nil && d != w.client.VerifFederationDialer() && (w.cache == nil || d != w.cache.VerifDialer()) {
 			tag = "wk"
 			r.Probe("wellknown_fetched_through_the_clients_own_dialer")
 		}
@@ -260,12 +260,19 @@ func bodyDial(r *sim.Run) {
 
 	opts := []fclient.ClientOption{fclient.WithWellKnownSRVLookups(true), fclient.WithSkipVerify(true), fclient.WithAllowDenyNetworks(w.allow, w.deny)}
 	keep := t.Bool()
+	if !fclient.VerifInternals {
+		// without the accessors the client's transports cannot be closed at
+		// teardown and its DNS cache cannot be given the simulated resolver:
+		// no keep-alives, no DNS cache; connections are told apart by address
+		keep = false
+		r.Probe("degraded_dial_workload_without_internals")
+	}
 	opts = append(opts, fclient.WithKeepAlives(keep))
 	reqTimeout := sim.Pick(t, []time.Duration{37300 * time.Millisecond, 20300 * time.Millisecond, 51300 * time.Millisecond})
 	opts = append(opts, fclient.WithTimeout(reqTimeout))
 	w.reqTimeout = reqTimeout
 	cacheLife := time.Duration(0)
-	if t.Chance(400) {
+	if t.Chance(400) && fclient.VerifInternals {
 		cacheLife = sim.Pick(t, []time.Duration{5 * time.Second, time.Minute, 10 * time.Minute})
 		w.cache = fclient.NewDNSCache(t.Range(1, 3), cacheLife, w.allow, w.deny)
 		w.cache.VerifSetResolver(orderedResolver{net.DefaultResolver})
